@@ -133,3 +133,36 @@ pub(crate) fn trace_call(primitive: usize) {
 pub fn take_trace() -> Trace {
     TRACE.with(Cell::take)
 }
+
+// ======================================================================
+// H4 / H5 - SCHEDULER SEAM (only with rustc `--cfg verif_shuttle`, where the
+// `shuttle` crate is provided by the verification harness' shadow manifest)
+
+/// Drop-in for `std::sync::LazyLock<T, fn() -> T>` whose once-cell is a
+/// scheduling point of the shuttle scheduler and whose storage is per execution.
+#[cfg(verif_shuttle)]
+pub struct LazyLock<T: Sync + 'static>(shuttle::lazy_static::Lazy<T>);
+
+#[cfg(verif_shuttle)]
+impl<T: Sync + 'static> LazyLock<T> {
+    pub const fn new(init: fn() -> T) -> Self {
+        Self(shuttle::lazy_static::Lazy::new(init))
+    }
+}
+
+#[cfg(verif_shuttle)]
+impl<T: Sync + 'static> std::ops::Deref for LazyLock<T> {
+    type Target = T;
+
+    fn deref(&self) -> &T {
+        // SAFETY: only ever used for `static` items.
+        let this: &'static Self = unsafe { &*std::ptr::from_ref(self) };
+        this.0.get()
+    }
+}
+
+/// A point at which the scheduler may switch threads.
+#[cfg(verif_shuttle)]
+pub fn sched_point() {
+    shuttle::thread::sleep(std::time::Duration::ZERO);
+}
